@@ -337,6 +337,9 @@ def g_malformed(rng):
         # a chunk of a known type with an arbitrary body / arbitrary length field
         t = rng.choice(ALL_TYPES)
         n = rng.choice([0, 1, 2, 3, 4, 5, 7, 8, 11, 12, 13, 15, 16, 17, 19, 20, rng.randrange(0, 64)])
+        fixed = {0: 12, 1: 16, 2: 16, 3: 12, 7: 4, 192: 4}.get(t)
+        if fixed is not None and rng.random() < 0.5:
+            n = max(0, fixed + rng.choice([-3, -2, -1, -1, 0, 0, 1, 2, 3, 4, 5, 8]))
         body = bytes(g_bytes(rng, n))
         if t == 3 and n >= 12 and rng.random() < 0.7:
             room = (n - 12) // 4
